@@ -12,12 +12,15 @@ def tu_check(tu):
     c = changed.analyse_conv(tu)
     u = unlink.c_rules(tu)
     w = setwiring.c_rules(tu)
-    f = a["findings"] + b["findings"] + c["findings"] + u["findings"] + \
+    from ..rules import firstbucket
+    fb = firstbucket.analyse_tu(tu)
+    f = a["findings"] + b["findings"] + c["findings"] + u["findings"] + fb["findings"] + \
         [x for x in w["findings"] if x["rule"] == "ALIAS-GUARD"]
     # the setstate loaders are not single-key calls
     f = [x for x in f if not (x["rule"] == "CONV-BEFORE-MUT" and "setstate" in (x.get("function") or ""))]
     return dict(findings=f, stats={"none": a["n"], "headers": a["headers"], "search": b["n"],
-                                   "conv": c["stats"], "unlink": u["n"], "inplace": w["stats"]["inplace"]})
+                                   "conv": c["stats"], "unlink": u["n"], "inplace": w["stats"]["inplace"],
+                                   "fb": fb["stats"]["firstbucket_stores"]})
 
 
 def py_keyerror_clean(res):
@@ -59,7 +62,7 @@ def py_keyerror_clean(res):
 def run(tier="quick", seed=0, use_cache=True):
     res = engine.Result("C01")
     res.rules = ["NONE-ORD", "SEARCH-DEFUSE", "SEARCH-BRANCH", "CONV-BEFORE-MUT",
-                 "KEYERROR-AFTER-MUT", "GROW-ROLLBACK", "UNLINK-STATUS", "ALIAS-GUARD", "PY-TAINT"]
+                 "KEYERROR-AFTER-MUT", "GROW-ROLLBACK", "UNLINK-STATUS", "ALIAS-GUARD", "PY-TAINT", "FIRSTBUCKET-INV"]
     res.explanation = (
         "Structural necessary conditions of sorted-map behaviour, decided "
         "from source for all 22 translation units and the Python classes: "
@@ -98,6 +101,8 @@ def run(tier="quick", seed=0, use_cache=True):
     res.count("CONV-BEFORE-MUT", tot_conv)
     res.count("KEYERROR-AFTER-MUT", tot_ke)
     res.count("UNLINK-STATUS", sum(r["stats"]["unlink"] for r in out.values()))
+    res.floor("stores of a node's firstbucket (OO)", out["OO"]["stats"]["fb"], 5)
+    res.count("FIRSTBUCKET-INV", sum(r["stats"]["fb"] for r in out.values()))
     res.count("ALIAS-GUARD", sum(r["stats"]["inplace"] for r in out.values()))
     od.none_order_py(res)
     od.search_py(res)
